@@ -152,7 +152,7 @@ Section IdentityReal.
     /\ (forall q, exists gs C, term_gates R ROpsu T [] c v (Some [q]) = GateModel.Ok (gs, 0)
                                /\ Interp.interp_all CRealS R rid gs = Some C
                                /\ forall psi, den CRealS C psi = ctrl CRealS [q] (exp_word_real [] c) psi)
-    /\ (forall q1 q2 r, NoDup (id_target T :: q1 :: q2 :: r) ->
+    /\ (forall q1 q2 r, NoDup (q1 :: q2 :: r) ->
           exists gs C, term_gates R ROpsu T [] c v (Some (q1 :: q2 :: r)) = GateModel.Ok (gs, 0)
                        /\ Interp.interp_all CRealS R rid gs = Some C
                        /\ forall psi, den CRealS C psi = ctrl CRealS (q1 :: q2 :: r) (exp_word_real [] c) psi).
